@@ -216,6 +216,8 @@ def jobs(tier):
                              ['cuqi.distribution._gmrf:GMRF.__init__', 'cuqi.distribution._gmrf:GMRF.sqrtprec', 'cuqi.utilities._utilities:sparse_cholesky'], num=False))
             for N in N2:
                 if N <= order + (1 if bc == 'neumann' else 0) or (order == 2 and N < 3): continue
+                J.append(Job(f'GMRF.structure2D:order={order}:{bc}:N={N}x{N}', lambda c, o=order, N=N, bc=bc: gmrf_structure(c, o, N, bc, True), 'Pbox',
+                             ['cuqi.distribution._gmrf:GMRF.__init__', 'cuqi.distribution._gmrf:GMRF.sqrtprec'], num=False))
                 J.append(Job(f'precision2D:order={order}:{bc}:N={N}x{N}', lambda c, o=order, N=N, bc=bc: precision(c, o, N, bc, True), 'Pbox', PO))
     for kind in ('GMRF', 'LMRF', 'CMRF'):
         mod = f'cuqi.distribution._{kind.lower()}'
